@@ -155,9 +155,13 @@ def run_check(pid, tier='quick', replay=None, seed=0):
     ctx.functions |= rctx.functions
     ctx.call_sites += rctx.call_sites
   sens = None
+  neutral = None
   if tier == 'thorough' and hasattr(mod, 'MUTANTS'):
     from . import mutants
     sens = mutants.run_pack(pid, mod)
+  if tier == 'thorough' and hasattr(mod, 'NEUTRAL'):
+    from . import mutants
+    neutral = mutants.run_neutral(pid, mod)
 
   known = load_known()
   known_keys = {json.dumps(k['key']): k for k in known.get('known', []) if k.get('property') == pid}
@@ -173,6 +177,9 @@ def run_check(pid, tier='quick', replay=None, seed=0):
       listed.append((v, known_keys[kj]))
     else:
       unlisted.append(v)
+  if neutral is not None:
+    for a in neutral.get('alarmed', []):
+      unlisted.append(Violation('NEUTRAL', pid, 'false-alarm', f"behaviour-preserving edits {a['edits']} made the rules report {a['reported'][:3]}", None, kind='checker-false-alarm'))
   if sens is not None:
     for m in sens.get('missed', []):
       unlisted.append(Violation('SENS', m['mutant'], 'sensitivity', f"seeded mutant {m['mutant']} was not reported by {m['expect']}", None, kind='checker-insensitive'))
@@ -249,6 +256,8 @@ def run_check(pid, tier='quick', replay=None, seed=0):
   coverage.update(ctx.extra)
   if sens is not None:
     coverage['sensitivity'] = sens
+  if neutral is not None:
+    coverage['neutral_edits'] = neutral
   ev = {
       'property_id': pid,
       'tier': tier,
